@@ -4,6 +4,7 @@ import inspect
 from ..lib import lean
 from ..sim import dev11
 from ..translate import loops11
+from ..translate import loops10
 
 ID = 'C13'
 TARGETS = ['PyIpmi.Props.C13', 'drv_c13']
@@ -25,21 +26,39 @@ RULE = ('the real helpers are called with scripted callables / a scripted interf
         'seeded longer sequences); compared with the Lean model (Model/SdrXfer.lean on SdrXfer.scriptX, variant probed): '
         'outcome, returned bytes and every exchange (reservation id, record id, offset, count, code).  Oracle on the real '
         'trace: every Get carries the id of the most recent Reserve of the operation (the caller\'s before the first), at '
-        'most 161 exchanges per record, unexpected codes propagate, a returned record is the stored one.')
+        'most 161 exchanges per record, unexpected codes propagate, a returned record is the stored one.  '
+        'THE TWO LOOPS OF pyipmi/sel.py: Sel.get_sel_entry (partial reads: FFh, 16, 15 ... on CAh) and '
+        'Sel.get_and_clear_sel_entry (reserve / read / delete, repeated on C5h; every retry budget 1..6 and the default) on '
+        'the real Ipmi object against a scripted byte-level SEL device (one 16-byte record; each Get / Delete SEL Entry '
+        'consumes one letter, code 0 serves exactly the bytes asked for; the Reserve SEL requests have their own outcome '
+        'list: first Reserve / renewals refused with node busy, timeout, other), same exploration (alphabet + 0xCA, depth '
+        '4 / 6, tails, seeded longer sequences); compared with the Lean model (Model/SelXfer.lean on SelXfer.scriptSend, '
+        'variant probed).  Oracle: at most 33 requests per get_sel_entry and 35 per round of get-and-clear, at most '
+        '`retry` rounds, RetryError (never a loop that goes on: the request cap is the model\'s fuel - 64 Get SEL Entry '
+        'per read, 90 rounds - beyond every bound of the repaired loops), every Get / Delete carries the most recent '
+        'reservation, unexpected codes (also on Reserve SEL) propagate and end the call, a result is the stored record.  '
+        'RESERVE OUTCOMES for the three helpers too: reserve_fn raises CompletionCodeError (node busy / timeout / other) at '
+        'its k-th call, k = 0..2 (compared with the model, judged: the error propagates, nothing is called after it).')
 ASSUMPTIONS = [
     'control flow of helper.get_sdr_chunk_helper/_clear_repository/clear_repository_helper and Ipmi.send_message is modelled by hand '
     '(Model/Retry.lean) and tied by this correspondence run; constants, loop tests and call sites are re-read from the source by '
     'harness/translate/loops11.py on every run',
-    'reserve_fn always succeeds and grants consecutive ids (so a stale reservation is visible); time.sleep is substituted by a recorder',
+    'reserve_fn grants consecutive ids (so a stale reservation is visible) unless the case schedules a failure for its k-th '
+    'call; time.sleep is substituted by a recorder',
     'an outcome sequence is a finite prefix followed by one letter repeated for ever; the theorems quantify over all of them and all '
     'budgets, the exploration over the prefixes a run can consume',
     'get_sdr_chunk_helper with retry=0 counts below zero and is outside the model (budgets are >= 1)',
     'record-chunk fetching = the SDR path (get_sdr_chunk_helper, get_sdr_data_helper over _get_sdr_chunk / _get_device_sdr_chunk, '
-    'the entries generators): the mechanisms the property names.  Two SEL loops of the anchor file pyipmi/sel.py are NOT judged '
-    'by this property (audit findings c13/finding_2 and c13/finding_3, recorded as observations): Sel.get_sel_entry lowers '
-    'max_req_len on 0xCA without a lower bound or retry counter (a device answering 0xCA for ever is never given up on), and '
-    'Sel.get_and_clear_sel_entry repeats reserve / get / delete on 0xC5 for ever (no budget, no RetryError).  Neither is '
-    '"repository clearing" or a chunk helper / send_message loop; C08 and C12 model both loops with fuel.',
+    'the entries generators) AND the two loops of the anchor file pyipmi/sel.py (get_sel_entry: chunk fetching by partial reads; '
+    'get_and_clear_sel_entry: reservation loop) - audit findings c13/finding_2 and finding_3',
+    'the scripted SEL device answers a letter with completion code 0 by serving exactly the bytes asked for (a "completed" '
+    'Get SEL Entry that carries no data for a non-zero length is not an outcome of the alphabet; the repaired get_sel_entry '
+    'would repeat such a read for ever, the model says so: SelScript.entry_bound is about scriptSend)',
+    'a loop that does not end is detected by a request cap equal to the model\'s fuel (64 requests per get_sel_entry, 90 rounds '
+    'of get-and-clear on a tree without retry budget); both are beyond the bounds proved for the repaired loops (33 / 5 rounds)',
+    'clear helper: an initiate-erase answered "erase in progress" is initiated AGAIN instead of being polled (spec_audit_a3 C13 '
+    'item 2: a slow-erasing BMC is sent several erase commands and never a status poll).  The letter of the property ("initiate '
+    'before polling", bounded, success only after a status read saying completed) is met; recorded as an observation, not judged',
     'the scripted SDR device answers a letter with completion code 0 by serving exactly the requested bytes of its records; what '
     'a real device does about limits and reservations is C11\'s reference device, not this one',
 ]
@@ -52,6 +71,7 @@ ALPHABET_SDR = ['C', 'R', 'T', 'U', 'B', 'O193', 'O202']
 CODE = {'C': 0x00, 'P': 0x00, 'R': 0xC5, 'T': 0xC3, 'U': 0xCE, 'B': 0xC0}
 
 _gen = None
+_gen10 = None
 
 
 def code_of(letter):
@@ -59,19 +79,21 @@ def code_of(letter):
 
 
 def translate(ctx):
-    global _gen
+    global _gen, _gen10
     _gen = loops11.generate()
+    _gen10 = loops10.generate(need='sel')
 
 
 # ---------------------------------------------------------------------------------------
 class Script(object):
-    def __init__(self, letters, tail, cap):
+    def __init__(self, letters, tail, cap, rplan=()):
         self.letters = list(letters)
         self.tail = tail
         self.i = 0
         self.cap = cap
         self.trace = []
         self.last = 0
+        self.rplan = list(rplan)        # outcomes of the reserve calls, in order; afterwards every one is granted
 
     def next(self):
         if len(self.trace) > self.cap:
@@ -85,9 +107,24 @@ class Script(object):
         self.i += 1
         return l
 
-    def reserve(self):
+    def reserve_code(self):
+        """completion code of the next Reserve (0 = granted), consuming one entry of the plan"""
         if len(self.trace) > self.cap:
             raise dev11.HangGuard('more than %d calls' % self.cap)
+        c = code_of(self.rplan.pop(0)) if self.rplan else 0
+        if c != 0:
+            self.trace.append('f%d' % c)
+        return c
+
+    def reserve(self):
+        """reserve_fn(): grants the next id, or raises CompletionCodeError as the plan says"""
+        c = self.reserve_code()
+        if c != 0:
+            from pyipmi.errors import CompletionCodeError
+            raise CompletionCodeError(c)
+        return self.grant()
+
+    def grant(self):
         self.last += 1
         self.trace.append('r%d' % self.last)
         return self.last
@@ -103,9 +140,9 @@ class _Req(object):
         self.reservation_id = res
 
 
-def run_chunk(budget, res0, letters, tail):
+def run_chunk(budget, res0, letters, tail, rplan=()):
     import pyipmi.helper as H
-    s = Script(letters, tail, 4 * budget + 40)
+    s = Script(letters, tail, 4 * budget + 40, rplan)
     s.last = res0
     req = _Req(res0)
 
@@ -132,9 +169,9 @@ def _clear_fn(s):
     return clear_fn
 
 
-def run_clear(budget, rv, letters, tail):
+def run_clear(budget, rv, letters, tail, rplan=()):
     import pyipmi.helper as H
-    s = Script(letters, tail, 8 * budget + 40)
+    s = Script(letters, tail, 8 * budget + 40, rplan)
     s.last = rv if rv is not None else 0
     tag, val = dev11.outcome_of(lambda: H.clear_repository_helper(s.reserve, _clear_fn(s), retry=budget, reservation=rv))
     if tag == 'ok' and val is not None:
@@ -172,15 +209,18 @@ GLUE = {
 }
 
 
-def run_glue(name, budget, letters, tail):
+def run_glue(name, budget, letters, tail, rplan=()):
     """Sel.clear_sel / Sdr.clear_sdr_repository through a scripted byte-level interface."""
     netfn, cmd_res, cmd_clr = GLUE[name]
-    s = Script(letters, tail, 8 * budget + 40)
+    s = Script(letters, tail, 8 * budget + 40, rplan)
     notes = []
 
     def handler(nf, cmd, data):
         if nf == netfn and cmd == cmd_res and len(data) == 0:
-            r = s.reserve()
+            c = s.reserve_code()
+            if c != 0:
+                return bytes([c])           # the Reserve command itself is refused
+            r = s.grant()
             return bytes([0, r & 0xFF, r >> 8])
         if nf == netfn and cmd == cmd_clr and len(data) == 6:
             if data[2:5] != b'CLR':
@@ -260,6 +300,97 @@ def run_sdr(helper, rv, letters, tail):
     return tag, s.trace
 
 
+# ---- the two loops of pyipmi/sel.py: real Ipmi object, scripted byte-level SEL device -------------------------
+SEL_REC = bytes(bytearray([0x01, 0x00, 0x02, 1, 2, 3, 4, 0x20, 0, 4, 1, 0x10, 0x6F, 0xA1, 0xB2, 0xC3]))
+SEL_NEXT = 0xFFFF
+SEL_HELPERS = ('sel:entry', 'sel:gac')
+SEL_ENTRY_FUEL = 64             # Lean: SelXfer.entryFuel - Get SEL Entry requests of one get_sel_entry the model follows
+SEL_GAC_FUEL = 90               # rounds of get-and-clear followed on a tree without retry budget (`while True`)
+SEL_ENTRY_BOUND = 33            # Lean: sel_entry_bounded
+SEL_ROUND_BOUND = 35            # Lean: sel_get_and_clear_bounded (per round)
+SEL_DEFAULT_ROUNDS = 5          # Variant.intended.budget
+SEL_VARIANT = {'floor': None, 'budget': None}
+
+
+def run_sel(helper, budget, rv, letters, tail, rplan=()):
+    """get_sel_entry(1, rv) / get_and_clear_sel_entry(1[, retry=budget]) against the scripted SEL device.
+    budget None = the call without `retry`.  A loop that does not end is stopped where the model's fuel ends."""
+    s = Script(letters, tail, 100000, rplan)
+    s.last = rv or 0
+    gets = [0]
+    rounds = [0]
+    max_rounds = SEL_GAC_FUEL if SEL_VARIANT['budget'] is None else None
+
+    def handler(nf, cmd, data):
+        if nf != dev11.NETFN_STORAGE:
+            s.trace.append('?')
+            return bytes([0xC1])
+        if cmd == dev11.CMD_RESERVE_SEL and len(data) == 0:
+            if max_rounds is not None and rounds[0] >= max_rounds:
+                raise dev11.HangGuard('more than %d rounds' % max_rounds)
+            rounds[0] += 1
+            gets[0] = 0
+            c = s.reserve_code()
+            if c != 0:
+                return bytes([c])
+            r = s.grant()
+            return bytes([0, r & 0xFF, r >> 8])
+        if cmd == 0x43 and len(data) == 6:
+            if gets[0] >= SEL_ENTRY_FUEL:
+                raise dev11.HangGuard('more than %d Get SEL Entry in one read' % SEL_ENTRY_FUEL)
+            gets[0] += 1
+            res, rid, off, cnt = data[0] | data[1] << 8, data[2] | data[3] << 8, data[4], data[5]
+            l = s.next()
+            c = code_of(l)
+            s.trace.append('g%d:%d:%d:%d:%d' % (res, rid, off, cnt, c))
+            if c != 0:
+                return bytes([c])
+            served = SEL_REC[off:] if cnt == 0xFF else SEL_REC[off:off + cnt]
+            return bytes([0, SEL_NEXT & 0xFF, SEL_NEXT >> 8]) + served
+        if cmd == 0x46 and len(data) == 4:
+            res, rid = data[0] | data[1] << 8, data[2] | data[3] << 8
+            l = s.next()
+            c = code_of(l)
+            s.trace.append('d%d:%d:%d' % (res, rid, c))
+            if c != 0:
+                return bytes([c])
+            return bytes([0, data[2], data[3]])
+        s.trace.append('?')
+        return bytes([0xC1])
+    ipmi, _ = dev11.make_ipmi(handler)
+
+    def op():
+        if helper == 'sel:entry':
+            e, nxt = ipmi.get_sel_entry(1, rv)
+            return '%s:%d' % (lean.hexs(bytes(bytearray(e.data.array))), nxt)
+        if budget is None:
+            e = ipmi.get_and_clear_sel_entry(1)
+        else:
+            e = ipmi.get_and_clear_sel_entry(1, retry=budget)
+        return lean.hexs(bytes(bytearray(e.data.array)))
+    tag, val = dev11.outcome_of(op)
+    if tag == 'ok':
+        tag = 'ok=%s' % val
+    elif tag == 'py:Hang':
+        tag = 'py:nontermination'           # the model's word for "out of fuel"
+    return tag, s.trace
+
+
+def probe_sel_variant():
+    """floor: every Get SEL Entry answered CAh - RetryError behind a last request of F+1 bytes means the length has the
+    floor F, no end within the cap means none.  budget: every Get answered C5h, call without `retry` - RetryError after N
+    Reserve SEL means a budget with default N."""
+    SEL_VARIANT.update(floor=None, budget=None)
+    tag, trace = run_sel('sel:entry', None, 7, (), 'O202')
+    floor = None
+    if tag == 'RetryError' and trace and trace[-1][0] == 'g':
+        floor = int(trace[-1].split(':')[3]) - 1
+    tag, trace = run_sel('sel:gac', None, None, (), 'R')
+    budget = sum(1 for e in trace if e[0] == 'r') if tag == 'RetryError' else None
+    SEL_VARIANT.update(floor=floor, budget=budget)
+    return dict(SEL_VARIANT)
+
+
 def probe_stale_variant():
     """True = as shipped: after a renewal the next chunk is requested with the cancelled id again."""
     seen = set()
@@ -272,20 +403,35 @@ def probe_stale_variant():
     return seen.pop() if len(seen) == 1 else None
 
 
-def runner(helper, budget, rv):
+def runner(helper, budget, rv, rplan=()):
     if helper in SDR_HELPERS:
         return lambda p, t: run_sdr(helper, rv, p, t)
+    if helper in SEL_HELPERS:
+        return lambda p, t: run_sel(helper, budget, rv, p, t, rplan)
     if helper == 'chunk':
-        return lambda p, t: run_chunk(budget, rv, p, t)
+        return lambda p, t: run_chunk(budget, rv, p, t, rplan)
     if helper == 'clear':
-        return lambda p, t: run_clear(budget, rv, p, t)
+        return lambda p, t: run_clear(budget, rv, p, t, rplan)
     if helper == 'send':
         return lambda p, t: run_send(budget, p, t)
-    return lambda p, t: run_glue(helper, budget, p, t)
+    return lambda p, t: run_glue(helper, budget, p, t, rplan)
 
 
-def model_line(helper, budget, rv, letters, tail, send_variant, stale_variant=True):
+def model_line(helper, budget, rv, letters, tail, send_variant, stale_variant=True, rplan=()):
     ls = ','.join(letters) or '-'
+    rp = ','.join(rplan) or '-'
+    if helper in SEL_HELPERS:
+        fl = '-' if SEL_VARIANT['floor'] is None else str(SEL_VARIANT['floor'])
+        common = '%d %s %d %s %s %s' % (rv or 0, lean.hexs(SEL_REC), SEL_NEXT, rp, ls, tail)
+        if helper == 'sel:entry':
+            return 'selentry %s 1 %d %s' % (fl, rv or 0, common)
+        if SEL_VARIANT['budget'] is None:
+            return 'selgac %s f%d 1 %s' % (fl, SEL_GAC_FUEL, common)
+        return 'selgac %s b%d 1 %s' % (fl, SEL_VARIANT['budget'] if budget is None else budget, common)
+    if rplan and helper == 'chunk':
+        return 'chunkr %d %d %s %s %s' % (budget, rv, rp, ls, tail)
+    if rplan and helper not in SDR_HELPERS and helper != 'send':
+        return 'clearr %d %s %s %s %s' % (budget, '-' if rv is None else rv, rp, ls, tail)
     if helper in SDR_HELPERS:
         kind, store = helper.split(':')
         recs = ','.join(lean.hexs(r) for r in SDR_RECS)
@@ -313,6 +459,8 @@ def _events(trace):
         elif e[0] == 'k':
             a, l = e[1:].split(':')
             out.append(('k', int(a), l))
+        elif e[0] == 'f':
+            out.append(('f', int(e[1:])))
         else:
             out.append(('x', e[1:]))
     return out
@@ -369,10 +517,102 @@ def oracle_sdr(helper, rv, tag, trace):
     return bad
 
 
+def oracle_sel(helper, budget, rv, tag, trace):
+    """The two loops of pyipmi/sel.py, judged on the exchanges the scripted device saw (r<id> Reserve granted, f<cc>
+    Reserve refused, g<res>:<rid>:<off>:<len>:<cc> Get SEL Entry, d<res>:<rid>:<cc> Delete SEL Entry)."""
+    bad = []
+    entry = helper == 'sel:entry'
+    name = 'get_sel_entry' if entry else 'get_and_clear_sel_entry'
+    # rounds: [reserve event or None, gets, delete or None]
+    rounds, cur = [], None
+    for i, e in enumerate(trace):
+        if e[0] in 'rf' or cur is None:
+            cur = {'res': e if e[0] in 'rf' else None, 'gets': [], 'del': None}
+            rounds.append(cur)
+            if e[0] in 'rf':
+                continue
+        if e[0] == 'g':
+            cur['gets'].append([int(x) for x in e[1:].split(':')])
+        elif e[0] == 'd':
+            cur['del'] = [int(x) for x in e[1:].split(':')]
+    allowed_rounds = (SEL_DEFAULT_ROUNDS if budget is None else budget)
+    # bounded; the retry-exhausted error instead of a loop that goes on
+    long_read = [r for r in rounds if len(r['gets']) > SEL_ENTRY_BOUND]
+    if long_read or (entry and tag == 'py:nontermination'):
+        n = len(long_read[0]['gets']) if long_read else len(trace)
+        sig = 'get_sel_entry:unbounded-after-CAh' if any(g[4] == 0xCA for r in rounds for g in r['gets']) \
+            else 'unbounded:get_sel_entry'
+        bad.append((sig, 'get_sel_entry is still asking after %d Get SEL Entry requests (a repaired loop needs at most %d: the 17 '
+                    'lengths FFh, 16 ... 1 and one request per byte); lengths asked for: %s ...' % (
+                        n, SEL_ENTRY_BOUND, ' '.join('%02x' % g[3] for g in (long_read[0] if long_read else rounds[0])['gets'][:22]))))
+    elif not entry and (tag == 'py:nontermination' or len(rounds) > allowed_rounds
+                        or len(trace) > SEL_ROUND_BOUND * allowed_rounds):
+        last = [r for r in rounds if r['gets'] or r['del']][-3:]
+        after = any((r['gets'] and r['gets'][-1][4] == 0xC5) or (r['del'] and r['del'][2] == 0xC5) for r in last)
+        sig = 'get_and_clear_sel_entry:unbounded-after-C5h' if after else 'unbounded:get_and_clear_sel_entry'
+        bad.append((sig, 'get_and_clear_sel_entry is in round %d after %d requests and has not given up (retry budget %s: at most %d '
+                    'rounds, %d requests)' % (len(rounds), len(trace), 'default' if budget is None else budget, allowed_rounds,
+                                              SEL_ROUND_BOUND * allowed_rounds)))
+    elif not tag.startswith('ok=') and tag != 'RetryError' and not tag.startswith('CompletionCodeError:'):
+        bad.append(('other-exception:%s' % name, '%s ends with %s' % (name, tag)))
+    if any(e == '?' for e in trace):
+        bad.append(('unexpected-request:%s' % name, '%s sent a request that is neither Reserve / Get / Delete SEL Entry' % name))
+    # most recently obtained reservation (the caller's for get_sel_entry)
+    held = rv
+    for e in trace:
+        if e[0] == 'r':
+            held = int(e[1:])
+        elif e[0] in 'gd':
+            res = int(e[1:].split(':')[0])
+            if res != held:
+                bad.append(('stale-reservation:%s' % name, '%s sent reservation %d while the most recently obtained one is %s (%s)' % (
+                    name, res, held, e)))
+                break
+    # unexpected completion codes propagate and end the call; C5h restarts get-and-clear, CAh shrinks the read
+    for i, e in enumerate(trace):
+        c = None
+        if e[0] == 'f':
+            c = int(e[1:])
+        elif e[0] in 'gd':
+            c = int(e.split(':')[-1])
+            if c == 0 or (e[0] == 'g' and c == 0xCA) or (not entry and c == 0xC5):
+                c = None
+        if c is not None:
+            if tag != 'CompletionCodeError:%d' % c or i != len(trace) - 1:
+                bad.append(('code-not-propagated:%s' % name, '%s got completion code 0x%02x at request %d of %d (%s) and ended with %s' % (
+                    name, c, i + 1, len(trace), e, tag)))
+            break
+    # RetryError only when something was exhausted
+    if tag == 'RetryError':
+        last = trace[-1] if trace else ''
+        gave_up_read = last[:1] == 'g' and last.endswith(':202')
+        if entry and not gave_up_read:
+            bad.append(('retry-error-unfounded:%s' % name, 'get_sel_entry raised RetryError although its last request (%s) was not '
+                        'refused with CAh' % (last or 'none')))
+        if not entry and not gave_up_read and len(rounds) < allowed_rounds:
+            bad.append(('retry-error-unfounded:%s' % name, 'get_and_clear_sel_entry raised RetryError after %d of %d rounds' % (
+                len(rounds), allowed_rounds)))
+    # a length of 1 byte is still tried before the read is given up (C12: partial-read limits 1..16)
+    if tag == 'RetryError' and trace and trace[-1][:1] == 'g' and trace[-1].endswith(':202') and int(trace[-1].split(':')[3]) != 1:
+        bad.append(('gives-up-early:get_sel_entry', 'the read was given up with RetryError after a refused request of %s bytes: '
+                    'shorter reads were never tried' % trace[-1].split(':')[3]))
+    # a result is the stored record, and for get-and-clear the last request was the acknowledged delete
+    if tag.startswith('ok='):
+        want = '%s:%d' % (lean.hexs(SEL_REC), SEL_NEXT) if entry else lean.hexs(SEL_REC)
+        if tag[3:] != want:
+            bad.append(('wrong-data:%s' % name, '%s returned %s, the device holds %s' % (name, tag[3:][:60], want)))
+        if not entry and not (trace and trace[-1][0] == 'd' and trace[-1].endswith(':0')):
+            bad.append(('result-without-delete:%s' % name, 'get_and_clear_sel_entry returned a record but its last request was %s' % (
+                trace[-1] if trace else 'none')))
+    return bad
+
+
 def oracle(helper, budget, rv, tag, trace):
     """-> list of (signature-suffix, what)."""
     if helper in SDR_HELPERS:
         return oracle_sdr(helper, rv, tag, trace)
+    if helper in SEL_HELPERS:
+        return oracle_sel(helper, budget, rv, tag, trace)
     bad = []
     ev = _events(trace)
     name = {'chunk': 'get_sdr_chunk_helper', 'clear': 'clear_repository_helper', 'send': 'send_message'}.get(helper, helper)
@@ -381,7 +621,17 @@ def oracle(helper, budget, rv, tag, trace):
     elif tag not in ('ok', 'RetryError') and not tag.startswith('CompletionCodeError:'):
         bad.append(('other-exception:%s' % name, '%s ends with %s' % (name, tag)))
     ncalls = sum(1 for e in ev if e[0] in 'ckx')
-    nres = sum(1 for e in ev if e[0] == 'r')
+    nres = sum(1 for e in ev if e[0] in 'rf')
+    res_failed = False
+    for i, e in enumerate(ev):
+        if e[0] == 'f':
+            # reserve_fn failed: that CompletionCodeError is what the helper ends with, nothing is called after it
+            res_failed = True
+            if tag != 'CompletionCodeError:%d' % e[1] or i != len(ev) - 1:
+                bad.append(('reserve-failure-not-propagated:%s' % name,
+                            '%s: reserve_fn raised CompletionCodeError(0x%02x) at call %d of %d and the helper ended with %s' % (
+                                name, e[1], i + 1, len(ev), tag)))
+            break
     if helper == 'chunk':
         lim, rlim = budget - 1, budget - 1
     elif helper == 'send':
@@ -400,6 +650,8 @@ def oracle(helper, budget, rv, tag, trace):
             bad.append(('stale-reservation:%s' % name, '%s sent reservation %s while the most recent one is %s' % (
                 name, e[2] if e[0] == 'c' else e[1], cur)))
             break
+    if res_failed:
+        return bad
     if helper not in ('chunk', 'send'):
         from pyipmi.msgs import constants as c
         seen_done = False
@@ -491,7 +743,7 @@ class _Found(object):
         self.best = {}
 
     def add(self, sig, what, case, expected, observed):
-        k = (len(case['script']), case['budget'], case['tail'] or '')
+        k = (len(case['script']), len(case.get('reserve_plan', ())), case['budget'] or 0, case['tail'] or '')
         if sig not in self.best or k < self.best[sig][0]:
             self.best[sig] = (k, what, case, expected, observed)
 
@@ -501,17 +753,21 @@ class _Found(object):
 
 
 def _check_batch(ctx, drv, batch, send_variant, found, stale_variant=True):
-    lines = [model_line(h, b, rv, p, t or 'C', send_variant, stale_variant) for (h, b, rv, p, t, _) in batch]
+    batch = [x if len(x) == 7 else x + ((),) for x in batch]
+    lines = [model_line(h, b, rv, p, t or 'C', send_variant, stale_variant, rp) for (h, b, rv, p, t, _, rp) in batch]
     models = drv.ask_many(lines) if drv is not None else [None] * len(lines)
-    for (h, b, rv, p, t, (tag, trace)), m in zip(batch, models):
+    for (h, b, rv, p, t, (tag, trace), rp), m in zip(batch, models):
         case = {'helper': h, 'budget': b, 'reservation': rv, 'script': list(p), 'tail': t}
-        ctx.case((h, b, rv, p, t), nontrivial=len(trace) > 0)
+        if rp:
+            case['reserve_plan'] = list(rp)
+            ctx.count('reserve-refused:%s' % ('first' if code_of(rp[0]) else 'renewal'))
+        ctx.case((h, b, rv, p, t, rp), nontrivial=len(trace) > 0)
         ctx.count('helper:' + h)
         ctx.count('outcome:' + (tag.split(':')[0]))
         ctx.count('consumed:%s' % (lambda n: n if n < 12 else '12+')(sum(1 for e in trace if e[0] != 'r')))
         code_s = '%s %s' % (tag, ','.join(trace) or '-')
         for sig, what in oracle(h, b, rv, tag, trace):
-            found.add(sig, what, case, 'see property clause', code_s)
+            found.add(sig, what, case, 'see property clause', code_s[:700])
         if m is not None and m != code_s:
             ctx.disagree('%s budget=%d' % (h, b), case, m, code_s)
         if len(ctx.samples) < 6 and len(p) >= 3 and (len(ctx.samples) % 2 == 0) == (tag == 'ok'):
@@ -542,6 +798,11 @@ def run(ctx):
             stale_variant = _gen['staleRes'] if _gen is not None else True
         elif _gen is not None and _gen['staleRes'] != stale_variant:
             ctx.disagree('renewed reservation variant: source reading vs behaviour', {}, _gen['staleRes'], stale_variant)
+        sel_variant = probe_sel_variant()
+        read = None if _gen10 is None else {'floor': _gen10['sel']['floor'], 'budget': _gen10['sel']['budget']}
+        ctx.extra['sel_loops_variant'] = {'probed_on_real_code': dict(sel_variant), 'read_from_source': read}
+        if read is not None and read != sel_variant:
+            ctx.disagree('variant of the SEL loops: source reading vs behaviour', {}, read, sel_variant)
         depth = 5 if ctx.tier == 'quick' else 8
         glue_depth = 3 if ctx.tier == 'quick' else 5
         plans = []
@@ -557,10 +818,35 @@ def run(ctx):
             plans.append((h, 5, None, sdr_depth))
             if h.startswith('data'):
                 plans.append((h, 5, 700, sdr_depth - 1))
-        for h, b, rv, d in plans:
+        # the two SEL loops: get_sel_entry under a caller reservation; get-and-clear for every budget 1..6 and the default
+        sel_depth = 4 if ctx.tier == 'quick' else 6
+        plans.append(('sel:entry', None, 7, sel_depth + 1))
+        gac_budgets = [None] if sel_variant['budget'] is None else [None, 1, 2, 3, 4, 5, 6]
+        for b in gac_budgets:
+            plans.append(('sel:gac', b, None, sel_depth if b in (None, 2) else sel_depth - 1))
+        # reserve outcomes: the k-th Reserve (k = 0, 1, 2) refused with node busy / timeout / another code
+        rdepth = 3 if ctx.tier == 'quick' else 5
+        for k in range(3):
+            for l in ('B', 'T', 'O209'):
+                rp = ('C',) * k + (l,)
+                for b in (2, 4):
+                    plans.append(('chunk', b, 3, rdepth, rp))
+                    plans.append(('clear', b, None, rdepth, rp))
+                    plans.append(('clear', b, 7, rdepth, rp))
+                plans.append(('clear_sel', 4, None, rdepth - 1, rp))
+                plans.append(('clear_sdr_repository', 4, None, rdepth - 1, rp))
+                plans.append(('sel:gac', None if sel_variant['budget'] is None else 4, None, rdepth, rp))
+        # the two constant outcome sequences of the audit findings first (they are the shortest witnesses)
+        _check_batch(ctx, drv, [('sel:entry', None, 7, (), 'O202', run_sel('sel:entry', None, 7, (), 'O202')),
+                                ('sel:gac', None, None, (), 'R', run_sel('sel:gac', None, None, (), 'R'))],
+                     send_variant, found, stale_variant)
+        for plan in plans:
+            h, b, rv, d = plan[:4]
+            rp = plan[4] if len(plan) > 4 else ()
             batch = []
-            for p, t, res in explore(runner(h, b, rv), d, ALPHABET_SDR if h in SDR_HELPERS else None):
-                batch.append((h, b, rv, p, t, res))
+            alphabet = ALPHABET_SDR if h in SDR_HELPERS or h in SEL_HELPERS else None
+            for p, t, res in explore(runner(h, b, rv, rp), d, alphabet):
+                batch.append((h, b, rv, p, t, res, rp))
                 if len(batch) >= 4000:
                     _check_batch(ctx, drv, batch, send_variant, found, stale_variant)
                     batch = []
@@ -600,6 +886,24 @@ def run(ctx):
             batch.append((h, 5, rv, tuple(letters), t, runner(h, 5, rv)(tuple(letters), t)))
             ctx.count('random-sdr')
         _check_batch(ctx, drv, batch, send_variant, found, stale_variant)
+        # ... and for the SEL loops: mostly completed / cancelled / 0xCA, Reserve outcomes now and then
+        batch = []
+        for _ in range(n // 3):
+            h = rng.choice(SEL_HELPERS)
+            b = None if h == 'sel:entry' or sel_variant['budget'] is None else rng.choice([None, rng.randrange(1, 9)])
+            rv = rng.randrange(1, 0xFFF0) if h == 'sel:entry' else None
+            letters = []
+            for _i in range(rng.randrange(0, 40)):
+                l = rng.choice('CCCCCPRRRAAAAAATUO')
+                letters.append({'A': 'O202', 'O': 'O%d' % rng.choice([0xC0, 0xC1, 0xC9, 0xCB, 0xCC, 0xFF, 0x80])}.get(l, l))
+            t = rng.choice(['C', 'C', 'C', 'P', 'R', 'T', 'O202', 'O202'])
+            rp = ()
+            if h == 'sel:gac' and rng.random() < 0.3:
+                rp = tuple(rng.choice(['C', 'C', 'C', 'B', 'T', 'R', 'O%d' % rng.choice([0xC1, 0xD3, 0xFF])])
+                           for _i in range(rng.randrange(1, 5)))
+            batch.append((h, b, rv, tuple(letters), t, runner(h, b, rv, rp)(tuple(letters), t), rp))
+            ctx.count('random-sel')
+        _check_batch(ctx, drv, batch, send_variant, found, stale_variant)
     found.flush(ctx)
 
 
@@ -619,14 +923,23 @@ def search(ctx):
 def replay(ctx, v):
     case = v['case']
     h, b, rv = case['helper'], case['budget'], case.get('reservation')
+    rp = tuple(case.get('reserve_plan', ()))
     with dev11.no_sleep():
-        tag, trace = runner(h, b, rv)(tuple(case['script']), case['tail'] or 'C')
-    print('%s budget=%d reservation=%s outcomes=%s then %s for ever' % (h, b, rv, ','.join(case['script']) or '-', case['tail'] or 'C'))
-    print('  real code: %s  calls: %s' % (tag, ','.join(trace) or '-'))
+        if h in SEL_HELPERS:
+            probe_sel_variant()
+        tag, trace = runner(h, b, rv, rp)(tuple(case['script']), case['tail'] or 'C')
+    print('%s budget=%s reservation=%s outcomes=%s then %s for ever%s' % (
+        h, b, rv, ','.join(case['script']) or '-', case['tail'] or 'C',
+        '' if not rp else '; Reserve outcomes %s then granted' % ','.join(rp)))
+    shown = trace if len(trace) <= 60 else trace[:40] + ['... (%d more)' % (len(trace) - 40)]
+    print('  real code: %s  calls: %s' % (tag, ','.join(shown) or '-'))
     bad = oracle(h, b, rv, tag, trace)
     for sig, what in bad:
         print('  property: ' + what)
     if h in SDR_HELPERS:
         print('  (r<id> = Reserve answered with <id>; g<reservation>:<record>:<offset>:<count>:<completion code> = Get (Device) SDR)')
+    if h in SEL_HELPERS:
+        print('  (r<id> = Reserve SEL answered with <id>, f<cc> refused; g<reservation>:<record>:<offset>:<bytes to read>:<completion '
+              'code> = Get SEL Entry; d<reservation>:<record>:<completion code> = Delete SEL Entry)')
     want = v['signature'][len('C13:'):]
     return any(sig == want for sig, _ in bad)
